@@ -189,8 +189,11 @@ def _nodes(c):
     return sum(1 + _nodes(b) for p, b in c.chain) + (0 if c.orelse is None else _nodes(c.orelse))
 
 
-def combined_deep_programs():
+def combined_deep_programs(full=None):
     """chains and nesting COMBINED inside the explored bounds (nesting <= 12, chains <= 60)"""
+    import os
+    if full is None:
+        full = os.environ.get("VERIF_TIER", "quick") == "thorough"
     out = []
 
     def chain_of(n, var, last_body, orelse):
@@ -210,6 +213,14 @@ def combined_deep_programs():
     for d in range(12):
         c = chain_of(10, "n%d" % d, c, None if d % 3 else R())
     out.append(prog(c))
+    # the corners of the stated bounds and points in between: nesting x chain = 12x60, 12x21, 8x40, 5x60 (the conditional
+    # tree is then 720 / 252 / 320 / 300 levels deep: anything that spends more than a constant of Python stack per level
+    # of the tree runs out here, the pinned generator does not)
+    for nest, ch in (((12, 60),) if full else ()) + ((12, 21), (8, 40), (5, 60)):
+        c = R()
+        for d in range(nest):
+            c = chain_of(ch, "m%d" % d, c, R() if d % 2 else None)
+        out.append(prog(c))
     return out
 
 
